@@ -107,6 +107,14 @@ def replace(eng, v, old, new):
     return build([p.replace(old, new) if isinstance(p, str) else p for p in parts])
 
 
+def _maybe_empty(eng, atom):
+    """can the atom be the empty string under the current path condition?"""
+    try:
+        return eng.feasible(z3.Length(atom.z) == 0)
+    except Exception:      # noqa
+        return True
+
+
 def strip(eng, v, left=True):
     parts = parts_of(v)
     if not parts:
@@ -127,7 +135,7 @@ def strip(eng, v, left=True):
         # is followed by nothing strippable
         if not (WS <= excl(eng, out[0])):
             raise Unsupported('strip: leading atom may start with whitespace')
-        if len(out) > 1 and isinstance(out[1], str) and out[1][:1] in WS:
+        if len(out) > 1 and isinstance(out[1], str) and out[1][:1] in WS and _maybe_empty(eng, out[0]):
             raise Unsupported('strip: possibly empty atom followed by whitespace')
     while out and isinstance(out[-1], str):
         s = out[-1].rstrip()
@@ -138,7 +146,7 @@ def strip(eng, v, left=True):
     if out and not isinstance(out[-1], str):
         if not (WS <= excl(eng, out[-1])):
             raise Unsupported('strip: trailing atom may end with whitespace')
-        if len(out) > 1 and isinstance(out[-2], str) and out[-2][-1:] in WS:
+        if len(out) > 1 and isinstance(out[-2], str) and out[-2][-1:] in WS and _maybe_empty(eng, out[-1]):
             raise Unsupported('strip: possibly empty atom preceded by whitespace')
     return build(out)
 
